@@ -582,7 +582,10 @@ def gen_server_case(real, rng, cid, n_iter=50, n_clients=3, hostile=0.3, mtu=150
             t = ts + rng.choice([8, 16, 17, 33, 50, 100, 300])
             if rng.random() < stop_early / max(1, n_iter):
                 break
-        yield {"stop": True, "acts": [rng.choice(["ok", "raise", "kick", "kick"]) for _ in range(10)]}
+        stop_acts = [rng.choice(["ok", "raise", "kick", "kick"]) for _ in range(10)]
+        if rng.random() < 0.6:
+            stop_acts[0] = "kick"        # the very first disconnect handler of the shutdown kicks everybody else
+        yield {"stop": True, "acts": stop_acts}
 
     sc = scenario()
     srv = ServerRun(real, cfg, sc)
